@@ -279,5 +279,5 @@ class Event:
             return f"EXT({d.get('recv')}.{d.get('method')})"
         if self.kind == "READ":
             return f"READ(gen={d.get('gen')},status={d.get('status')})"
-        inner = ",".join(f"{k}={v}" for k, v in d.items() if not (k.endswith("_v") or k in ("arg_values", "obj")))
+        inner = ",".join(f"{k}={v}" for k, v in d.items() if not (k.endswith("_v") or k in ("arg_values", "kwarg_values", "obj")))
         return f"{self.kind}({inner})"
